@@ -281,9 +281,13 @@ func c06Conversation(addr string, cid int, seed uint64, nreq int, mode int, wrap
 	go func() { // receiver + checker
 		defer close(recvDone)
 		for nextExp < len(expIdx) {
-			rx, ok, timedOut := t.Next(90 * time.Second)
+			rx, ok, timedOut := t.Next(45 * time.Second)
 			if timedOut {
-				incon.Store(true)
+				if serverAnswersFreshConnection(addr) {
+					bad("reply|an owed reply never came although the server answers fresh connections at once", fmt.Sprintf("conn %d: silent for 45 s after %d of %d expected replies", cid, nextExp, len(expIdx)))
+				} else {
+					incon.Store(true)
+				}
 				return
 			}
 			if !ok {
